@@ -14,6 +14,9 @@ def units(tier):
     for t in table_names():
         out.append(("script", SIDECARS, "pyvc.sensor_harness", "table_rows", f"rows:{t}", ("C11", "C12", "C20"), tier,
                     {"tname": t}))
+    for kind in ("rtu", "tcp", "aa55"):
+        out.append(("script", SIDECARS, "pyvc.sensor_harness", "response_construction", f"response:{kind}",
+                    ("C02", "C12"), tier, {"kind": kind}))
     return out + contract_units(SIDECARS, ['goodwe.protocol.ModbusRtuProtocolCommand.trim_response', 'goodwe.protocol.ModbusTcpProtocolCommand.trim_response', 'goodwe.protocol.Aa55ProtocolCommand.trim_response', 'goodwe.protocol.ModbusRtuProtocolCommand.get_offset', 'goodwe.protocol.ModbusTcpProtocolCommand.get_offset', 'goodwe.protocol.ProtocolCommand.get_offset'], tier)
 
 
